@@ -279,6 +279,12 @@ def getMask (t : Table) (m : List Bool) : Except Err Table :=
   | .error e => .error e
   | .ok idx => if idx.isEmpty then .ok t.emptyLike else .ok (t.gatherRows idx)
 
+/-- `d[mask]` as `__getitem__` accepts it (repaired code): one flag per row, or a single flag; any other length
+is a `ValueError` - in particular for a ONE-row table, whose row `zipper` would repeat once per flag
+(`getMask` alone, see `Pyg.Props.C01.mask_one_row_repeats`) -/
+def getMaskC (t : Table) (m : List Bool) : Except Err Table :=
+  if m.length = t.nrows ∨ m.length = 1 then t.getMask m else .error .value
+
 /-- `d[[i, j, ...]]` (lines 392-394), non-empty int list; `d[[]]` is `emptyLike` (line 386) -/
 def getTake (t : Table) (is : List Int) : Except Err Table :=
   if is.isEmpty then .ok t.emptyLike else
@@ -533,7 +539,7 @@ def step (s : Heap) (op : Op) : Heap × Out :=
   | .tup h ks => withT h fun t => s.query ((t.getTuple ks).map fun rs => .list (rs.map fun r => .tuple (r.map .cell)))
   | .apply h f => withT h fun t => s.query ((t.applyFn f).map cellsVal)
   | .slice dst h a b st => withT h fun t => s.bind dst (t.getSlice a b st)
-  | .mask dst h m => withT h fun t => s.bind dst (t.getMask m)
+  | .mask dst h m => withT h fun t => s.bind dst (t.getMaskC m)
   | .take dst h is => withT h fun t => s.bind dst (t.getTake is)
   | .proj dst h ks => withT h fun t => s.bind dst (t.getProj ks)
   | .call dst h consts fns => withT h fun t => s.bind dst (t.call consts fns)
